@@ -327,6 +327,10 @@ fn esc_text(t: &str, lex: &Lex) -> String {
     }
 }
 
+pub fn esc_attr_default(v: &str) -> String {
+    esc_attr(v, &Lex::default())
+}
+
 pub fn serialize(root: &XNode, lex: &Lex) -> String {
     let mut s = String::new();
     if lex.xml_decl {
